@@ -911,7 +911,7 @@ def _semantic_mutators(ctx, mdl, PathC):
     for n, idx in ((3, 0), (3, 1), (3, 3), (3, -1), (3, -5), (3, 10), (0, 0), (0, 5), (1, 0), (1, 1)):
         cases.append(('insert', n, (idx, 'NEW')))
     for nm, n, args in (('append', 3, ('NEW',)), ('append', 0, ('NEW',)), ('extend', 3, (['NEW'],)), ('extend', 0, (['NEW'],)), ('pop', 3, ()), ('pop', 3, (0,)),
-                        ('pop', 1, ()), ('reverse', 3, ()), ('clear', 3, ()), ('remove', 3, ('SEG0',)), ('remove', 1, ('SEG0',)), ('__iadd__', 3, (['NEW'],))):
+                        ('pop', 3, (-3,)), ('pop', 3, (-1,)), ('pop', 3, (2,)), ('pop', 3, (1,)), ('pop', 1, ()), ('pop', 1, (-1,)), ('reverse', 3, ()), ('clear', 3, ()), ('remove', 3, ('SEG0',)), ('remove', 1, ('SEG0',)), ('__iadd__', 3, (['NEW'],))):
         if nm in own:          # the class overrides a MutableSequence mixin
             cases.append((nm, n, args))
     for prop in ('start', 'end'):
@@ -1302,3 +1302,33 @@ def _path_histories(ctx, mdl, PathC):
             Obligation(ctx, 'R16.12').run(fi, '%s() / %s%r / %s()' % (oname.split(':')[0], mname, tuple(margs), oname.split(':')[0]), th, judge,
                                           allowed_raises=('AssertionError', 'ValueError', 'RuntimeError', 'Exception', 'IndexError'), need_return=False,
                                           opts={'presign': [(Tq, '+'), (Tq - 1, '-'), (Rat.sym('tloc'), '+'), (Rat.sym('tloc') - 1, '-')]})
+
+    # whole-path answers that an implementation may memoise (closedness, continuity, bounding box): concrete closed triangle,
+    # every mutation changes the answer, so a memo that survives the mutation answers for the old path
+    from fractions import Fraction as Fr
+    shape_obs = [o for o in ('isclosed', 'iscontinuous', 'bbox') if o in PathC.methods]
+    pts = [Rat.const(0), Rat.const(complex(1, 1)), Rat.const(2)]
+    for oname in shape_obs:
+        for mname, margs in mutations:
+            def th2(it, oname=oname, mname=mname, margs=margs):
+                segs = [it.construct('path.Line', pts[k], pts[(k + 1) % 3]) for k in range(3)]
+                p = it.construct('path.Path', *segs)
+                new = it.construct('path.Line', Rat.const(complex(5, 5)), Rat.const(complex(7, 6)))
+                first = it.call_method(p, oname)
+                a = [new if x == 'NEW' else (Rat.const(complex(9, -9)) if x == 'PT' else x) for x in margs]
+                if mname.endswith(':setter'):
+                    f = PathC.setters[mname.split(':')[0]]
+                    it.call_closure(Closure(f, f.node, None, f.module, p, PathC), a, {})
+                else:
+                    it.call_method(p, mname, *a)
+                after = it.call_method(p, oname)
+                fresh = it.construct('path.Path', *list(p.attrs['_segments']))
+                return after, it.call_method(fresh, oname)
+
+            def judge2(v):
+                after, fresh = v
+                ok = _struct_equal(after, fresh)
+                return ok, '' if ok else 'answers %s, a fresh path with the same segments answers %s' % (short(repr(after), 60), short(repr(fresh), 60))
+            fi = PathC.setters[mname.split(':')[0]] if mname.endswith(':setter') else PathC.methods[mname]
+            Obligation(ctx, 'R16.12').run(fi, '%s() / %s%r / %s()' % (oname, mname, tuple(margs), oname), th2, judge2,
+                                          allowed_raises=('AssertionError', 'ValueError', 'RuntimeError', 'Exception', 'IndexError'), need_return=False)
